@@ -1,11 +1,11 @@
 package main
 
 import (
-	"runtime"
 	"context"
 	"fmt"
 	"net/http"
 	"net/url"
+	"runtime"
 	"strings"
 	"sync"
 	"testing/synctest"
@@ -23,9 +23,9 @@ type timedCase struct {
 	WT      int      `json:"write_timeout_ms"`
 	DT      int      `json:"dispatch_timeout_ms"`
 	HB      int      `json:"heartbeat_ms"`
-	Exp     int      `json:"token_exp_ms"` // 0 = no exp claim (ms after t0, whole seconds)
+	Exp     int      `json:"token_exp_ms"`    // 0 = no exp claim (ms after t0, whole seconds)
 	Claim   string   `json:"claim,omitempty"` // "" = the plain "mercure" claim; "ns" = the namespaced fallback claim; "cookie" = plain claim in the cookie
-	Arr     [][2]int `json:"arrivals"`     // (ms after t0, id)
+	Arr     [][2]int `json:"arrivals"`        // (ms after t0, id)
 	Close   int      `json:"client_close_ms"`
 	Horizon int      `json:"horizon_ms"`
 	// Tie: the publishes and the client close are issued the instant the clock reaches their time, without first
